@@ -154,7 +154,7 @@ dry_load_files = REG.add(Contract(
     calls={"tqdm": _tqdm_hook, "strax.storage.files.dirname_to_prefix": Abstract(pure=True), "os.path.join": Abstract(pure=True),
            "open": Abstract(), "json.loads": Abstract(), "f.read": Abstract(), "literal_eval": Abstract(pure=True),
            "load_chunk": Abstract(may_raise=["Any"]), "strax.apply_selection": Abstract(may_raise=["Any"]), "results.append": Abstract(sort=None),
-           "np.hstack": Abstract(pure=True), "np.empty": Abstract(pure=True), "max": Abstract(pure=True),
+           "np.hstack": Abstract(pure=True), "np.empty": Abstract(pure=True), "max": Abstract(pure=True), "min": Abstract(pure=True),
            "list": lambda eng, a, kw, st, fr, k, node: k(Opq(z3.Function("fn:list", V, V)(eng.to_v(a[0]) if not hasattr(a[0], "lo") else
                                                              z3.Function("fn:range", z3.IntSort(), V)(a[0].hi))), st)},
     consts={"RUN_METADATA_PATTERN": "%s-metadata.json"},
